@@ -8,4 +8,9 @@ Definition run_c20 (k : Z) (args : list (list Z)) : list (list Z) :=
     let frc := if argz 6 args =? 0 then None else Some (arg 7 args) in
     let '(o, s, d) := spread2d (argn 0 args) (argn 1 args) (arg 2 args) (mask_opt (argz 3 args) (arg 4 args)) (argz 5 args) frc
                                (nth 0 (arg 8 args) 1) (nth 1 (arg 8 args) 1) (nth 2 (arg 8 args) 1) in [o; s; d]
+  else if k =? 2002 then
+    (* region_dissolve: nrow, ncol, regions, labels, has-locations, locations, (dx, dy, diagonal) *)
+    [region_dissolve (argn 0 args) (argn 1 args) (arg 2 args) (arg 3 args)
+                     (if argz 4 args =? 0 then None else Some (ns (arg 5 args)))
+                     (nth 0 (arg 6 args) 1) (nth 1 (arg 6 args) 1) (nth 2 (arg 6 args) 1)]
   else [[-999]].
